@@ -68,7 +68,7 @@ PROPS["C10"] = dict(
     harnesses=[
         H("c10_history_k4", "node", Q, 900,
           "every history of 4 events per contact, each event symbolic in {answer, hearsay, query received, query sent, wait d} "
-          "with d symbolic in [0, 40 min] at 1 ns resolution; first contact as responder or by hearsay; clock start symbolic",
+          "with d symbolic in [0, 68 min] at 1 ns resolution; first contact as responder or by hearsay; clock start symbolic",
           "k = 4 events (shorter histories included as zero waits); unwind 21 (20-byte id memcmp)",
           ["Node::as_good", "Node::as_questionable", "Node::update", "Node::local_request", "Node::remote_request",
            "Node::status", "Node::is_pingable"]),
@@ -107,6 +107,10 @@ PROPS["C08"] = dict(
         _c08("c08_bucket_hi4_good_fresh", Q, 900, "4..7", "good nodes", "an identity not in the bucket", COARSE),
         _c08("c08_bucket_hi4_questionable_fresh", Q, 900, "4..7", "questionable nodes", "an identity not in the bucket", COARSE),
         _c08("c08_bucket_lo4_questionable_repeat0", Q, 900, "0..3", "questionable nodes", "the identity stored in slot 0", COARSE),
+        H("c08_bucket_placement_kernel", "table", Q, 300, "shared-prefix length 0..=160, bucket count 1..=160, bucket index: symbolic",
+          "loop-free", ["bucket_placement", "can_split_bucket"]),
+        H("c08_leading_bit_count_kernel", "table", Q, 600, "two 20-byte ids: arbitrary first id, first differing bit position symbolic (0..=160), arbitrary bits behind it",
+          "20-byte loops; unwind 22", ["leading_bit_count", "InfoHash::bitxor", "InfoHash::leading_zeros", "InfoHash::flip_bit"]),
         _c08("c08_bucket_all8_fresh", T, 3000, "0..7 (all)", "-", "an identity not in the bucket", COARSE),
         _c08("c08_bucket_all8_repeat0", T, 3000, "0..7 (all)", "-", "the identity stored in slot 0", COARSE),
         _c08("c08_bucket_all8_repeat5", T, 3000, "0..7 (all)", "-", "the identity stored in slot 5", COARSE),
@@ -190,11 +194,13 @@ PROPS["C19"] = dict(
         H("c19_mid_generate_in_block_at_last", "transaction", Q, 600, "as above, last two positions of a block", "2 draws", ["MIDGenerator::generate"]),
         H("c19_aid_generate_in_block_at_0", "transaction", Q, 600, "block number and the two action ids read symbolic; position 0", "2 draws", ["AIDGenerator::generate", "MIDGenerator::new"]),
         H("c19_aid_generate_in_block_at_last", "transaction", Q, 600, "as above, last two positions", "2 draws", ["AIDGenerator::generate"]),
-        H("c19_mid_generate_across_boundary", "transaction", Q, 900, "action id symbolic; marker in {0 (new generator), LEN, 2^24 (wrap)}; permutation hook symbolic", "one draw across a block boundary; unwind 2050", ["MIDGenerator::generate", "generate_mids"]),
+        H("c19_mid_across_boundary_new_generator", "transaction", Q, 900, "action id symbolic; new generator (marker 0, lazy first block); shuffle hook pinned to identity", "one draw across a block boundary; 2048-iteration fill", ["MIDGenerator::generate", "generate_mids"]),
+        H("c19_mid_across_boundary_wrap", "transaction", Q, 900, "action id symbolic; marker 2^24 (wrap); shuffle hook pinned to identity", "one draw across the wrap", ["MIDGenerator::generate", "generate_mids"]),
+        H("c19_mid_across_boundary_second_block_permuted", "transaction", T, 3000, "action id symbolic; marker LEN; shuffle hook = up to two symbolic transpositions", "one draw across a block boundary", ["MIDGenerator::generate", "generate_mids"]),
         H("c19_from_bytes_length_gate", "transaction", Q, 300, "32 symbolic bytes; every prefix length 0..=32", "lengths enumerated", ["TransactionID::from_bytes"]),
-        H("c19_mid_block_first", "transaction", Q, 900, "marker 0 (concrete execution), symbolic probe index", "2048-iteration fill", ["generate_mids"]),
+        H("c19_mid_block_first", "transaction", T, 1500, "marker 0 (concrete execution), symbolic probe index", "2048-iteration fill", ["generate_mids"]),
         H("c19_mid_block_wrap", "transaction", Q, 900, "marker 2^24 (concrete execution), symbolic probe index", "2048-iteration fill", ["generate_mids"]),
-        H("c19_mid_block_last", "transaction", Q, 1500, "marker 2^24 - LEN", "2048-iteration fill", ["generate_mids"]),
+        H("c19_mid_block_last", "transaction", T, 1500, "marker 2^24 - LEN", "2048-iteration fill", ["generate_mids"]),
         H("c19_aid_block_last", "transaction", Q, 1500, "marker 2^40 - LEN", "2048-iteration fill", ["generate_aids"]),
         H("c19_aid_block_wrap", "transaction", T, 1500, "marker 2^40", "2048-iteration fill", ["generate_aids"]),
         H("c19_mid_generate_in_block", "transaction", T, 3000, "as in_block_at_*, with the position in the block symbolic too", "2 draws", ["MIDGenerator::generate"]),
